@@ -474,6 +474,36 @@ pub fn c17_parts(quick: bool) -> (Vec<EwSpec>, Vec<Scenario>) {
             scs.push(sc(&format!("C17.same-address-returns-after-server-disconnect.{}", r1), &cfg, script, env, if quick { 1 } else { 2 }, EO_C17 | EO_C08));
         }
     }
+    // the peer of an established connection dies without a word and a new client is started on the same address at once: its connection
+    // requests arrive every 2 s, more often than the active time-out (3 s) - they are not traffic of the dead connection, which must time
+    // out and make room for it
+    for (ma, mt) in [(1usize, 1usize), (1, 2)] {
+        for back in [2usize, 5] {
+            let mut cfg = EwCfg::new(2); cfg.max_active = ma; cfg.max_total = mt;
+            for c in cfg.clients.iter_mut() { c.active_timeout_ms = 3000; } cfg.server.active_timeout_ms = 3000;
+            let script = vec![at(0, Act::Connect(0)), after_c(0, 1, Act::CSend(0, 0, SendMode::Reliable, 50)), after_c(0, 3, Act::Forget(0)), after_c(0, 3 + back, Act::Connect(0))];
+            let mut env = EwEnv::basic(4, 90);
+            // (no datagram is lost here: with the first handshake's ACK lost the server is still waiting for it, and its 22 s of patience
+            // for that handshake and the new client's 22 s for its own run out together - the new client then gives up, which is no violation)
+            env.fates = DF_NONE; env.deltas = &[100, 2000]; env.fair_delta = 500; env.stop_when_done = false;
+            scs.push(sc(&format!("C17.ending.peer-restarts-on-the-same-address.{}", back), &cfg, script, env, if quick { 1 } else { 2 }, EO_C17 | EO_READMIT | EO_C08));
+        }
+    }
+    // the application closes or drops a connection that is still in its handshake (Server::client() hands it out): the slot must come back
+    for (cname, call) in [("disconnect-now", Act::SDisconnectNow(0)), ("disconnect", Act::SDisconnect(0)), ("drop", Act::SDrop(0))] {
+        for vanish in [false, true] {
+            let mut cfg = EwCfg::new(2); cfg.max_active = 1; cfg.max_total = 1;
+            let mut script = vec![at(0, Act::Connect(0)), at(2, call.clone())];
+            // (on a connection that is still pending these calls do nothing; if the client is still there the handshake then completes and the
+            // connection is ended by the client later on)
+            if vanish { script.push(at(1, Act::Forget(0))); } else { script.push(at(90, Act::CDisconnectNow(0))); }
+            script.push(at(8 + 140, Act::Connect(1)));
+            let mut env = EwEnv::basic(5, 8 + 140 + 30);
+            // the handshake is kept pending by holding or losing its second and third datagram
+            env.fates = &[DFate::Deliver, DFate::HoldLong, DFate::Drop]; env.fate_types = &[1, 2]; env.long_hold = 8; env.deltas = &[500]; env.fair_delta = 500; env.stop_when_done = false;
+            scs.push(sc(&format!("C17.ending.application-closes-a-pending-handshake.{}{}", cname, if vanish { ".client-gone" } else { "" }), &cfg, script, env, if quick { 1 } else { 2 }, EO_C17 | EO_READMIT | EO_C08));
+        }
+    }
     // handshakes abandoned half-way (the client vanishes after its SYN) must release their slot when the SYN-ACK retry budget is spent,
     // with handshake error reporting on and off (off is the default configuration)
     for he in [true, false] {
